@@ -300,16 +300,16 @@ Definition href_den (s : string) : option string :=
     path and query, "%" must still introduce two hexadecimal digits in path and
     fragment, a fragment is allowed, the path need not be absolute (but its first
     segment must not contain ":"), "*" is a path.  [lax_den s = Some (path, fragment)] *)
+Definition lax_path (u : string) : option string :=
+  let '(p, _, _) := cut_byte u "?" in
+  if negb (has_prefix "/" p) && first_segment_has_colon p then None else unescape p.
 Definition lax_den (s : string) : option (string * string) :=
   let '(u, frag, _) := cut_byte s "#" in
   if has_ctl u then None
-  else
-    let '(p, _, _) := cut_byte u "?" in
-    if negb (has_prefix "/" p) && first_segment_has_colon p then None
-    else match unescape p, unescape frag with
-         | Some path, Some f => Some (path, f)
-         | _, _ => None
-         end.
+  else match lax_path u, unescape frag with
+       | Some path, Some f => Some (path, f)
+       | _, _ => None
+       end.
 
 (** * Verdicts *)
 
@@ -338,6 +338,16 @@ Definition href_obs_agrees (m : res hval) (o : obs hobs) : bool :=
   | Ok (HAuth _ _), ObsErr => true
   | Err _, ObsErr => true
   | _, _ => false
+  end.
+
+(** the observation the model predicts (User and Host of a text with an authority are not
+    determined by the model; such a text is never in the scope of the specification) *)
+Definition hobs_of (r : res hval) : obs hobs :=
+  match r with
+  | Ok (HUrl x) => ObsOk (false, EmptyString, x)
+  | Ok (HAuth _ x) => ObsOk (true, EmptyString, x)
+  | Err _ => ObsErr
+  | Panic => ObsPanic
   end.
 
 (** (href-rt path): Href{Path: p}.MarshalText, then UnmarshalText *)
